@@ -22,6 +22,7 @@ struct rec {
   hwloc_uint64_t top_special_gp; /* special objects: the ancestor-or-self special object directly attached to the anchor */
   hwloc_obj_type_t top_special_type;
   int filter;                    /* type filter of this object's type */
+  int dont_merge;                /* Groups: attr->group.dont_merge */
   void *userdata;
 };
 struct snap { struct rec *r; unsigned n; refset root_cs, root_ccs, root_ns, root_cns, allowed_c, allowed_n; };
@@ -37,6 +38,7 @@ static void take(hwloc_topology_t t, struct snap *s)
     r->gp = o->gp_index; r->parent_gp = o->parent ? o->parent->gp_index : 0; r->type = o->type; r->os = o->os_index; r->userdata = o->userdata;
     r->list = !o->parent ? 'R' : is_special(o->type) ? (o->type == HWLOC_OBJ_MISC ? 'X' : 'I') : (o->type == HWLOC_OBJ_NUMANODE || o->type == HWLOC_OBJ_MEMCACHE) ? 'M' : 'N';
     r->has_sets = !!o->cpuset;
+    r->dont_merge = o->type == HWLOC_OBJ_GROUP && o->attr->group.dont_merge;
     if (r->has_sets) { rs_from_bitmap(&r->cs, o->cpuset); rs_from_bitmap(&r->ccs, o->complete_cpuset); rs_from_bitmap(&r->ns, o->nodeset); rs_from_bitmap(&r->cns, o->complete_nodeset); }
     enum hwloc_type_filter_e f = HWLOC_TYPE_FILTER_KEEP_ALL; hwloc_topology_get_type_filter(t, o->type, &f); r->filter = (int)f;
     r->anchor_gp = o->gp_index; r->top_special_gp = 0;
@@ -129,8 +131,10 @@ static int model_check(struct snap *b, struct snap *a, const refset *S, unsigned
       refset e; rs_and(&e, &o->ns, S);
       if (!r && !((flags & HWLOC_RESTRICT_FLAG_REMOVE_MEMLESS) && rs_iszero(&e))) V("pu.lost", "%s :: PU P#%u disappeared (REMOVE_MEMLESS=%d, nodeset after %s)", ct, o->os, !!(flags & HWLOC_RESTRICT_FLAG_REMOVE_MEMLESS), rs_str(&e));
     } else if ((o->list == 'N' || o->list == 'M') && o->type != HWLOC_OBJ_PU && o->type != HWLOC_OBJ_NUMANODE) {
-      int mergeable = o->type == HWLOC_OBJ_GROUP || o->type == HWLOC_OBJ_DIE || o->filter == HWLOC_TYPE_FILTER_KEEP_STRUCTURE;
-      if (!r && !rrem[i] && !mergeable) V("normal.lost", "%s :: %s gp=%" PRIu64 " disappeared although PUs or NUMA nodes remain below it and its type is not subject to structural merging", ct, hwloc_obj_type_string(o->type), o->gp);
+      /* the load-time rules: Groups are merged when redundant unless they carry dont_merge ("never merged with identical
+       * parent or children"), Dies are merged into identical Packages, other types only under KEEP_STRUCTURE */
+      int mergeable = o->type == HWLOC_OBJ_GROUP ? !o->dont_merge : (o->type == HWLOC_OBJ_DIE || o->filter == HWLOC_TYPE_FILTER_KEEP_STRUCTURE);
+      if (!r && !rrem[i] && !mergeable) V(o->dont_merge ? "normal.lost.dont_merge" : "normal.lost", "%s :: %s gp=%" PRIu64 " disappeared although PUs or NUMA nodes remain below it and %s", ct, hwloc_obj_type_string(o->type), o->gp, o->dont_merge ? "it is a dont_merge Group" : "its type is not subject to structural merging");
       /* (the converse - an emptied object must go - is not demanded: a CPU-less, memory-less Package whose nodeset still holds
        * a machine-level NUMA node legitimately stays after a BYNODESET restrict) */
       if (r && rrem[i]) mc_count("emptied_normal_objects_kept", 1);
